@@ -20,6 +20,9 @@ Inductive reach (g : config) : nat -> nat -> Prop :=
 Definition to_nil (g : config) (a : nat) : Prop :=
   exists y hk, reach g a y /\ get_hook g y = Some hk /\ forwarded y hk = true /\ h_rh hk = None.
 
+(* a non-empty path: p forwards to r, and cur is reachable from r *)
+Definition path1 (g : config) (p cur : nat) : Prop := exists r, fwd g p r /\ reach g r cur.
+
 (* ---- counting *)
 Definition wtok (h : nat) (c : client) : Z := if oeqb (c_tgt c) (Some h) then 1 else 0.
 (* number of live client references accounted at hook h *)
@@ -37,7 +40,7 @@ Definition closers (g : config) (h : nat) : Z := sumf (wclose h) (threads g).
 Definition wcall (h : nat) (th : thread) : Z :=
   match t_pc th with
   | InCall x => if Nat.eqb x h then 1 else 0
-  | CallFin x => if Nat.eqb x h then 1 else 0
+  | CallFin x _ => if Nat.eqb x h then 1 else 0
   | _ => 0
   end.
 (* calls through h in progress *)
@@ -92,7 +95,7 @@ Record InvF (g : config) : Prop := {
   (* a Fulfill in its transfer walk holds the promise hook's mutex and carries its references *)
   inv_flight : forall t p n c cur, pc_of g t (FWalk p n c cur) ->
       exists hk, get_hook g p = Some hk /\ h_mu hk = Some t /\ h_refs hk = 0 /\ tokens g p = n /\
-                 0 < n /\ forwarded p hk = true /\ reach g p cur /\ borrow_ok g c (Some cur);
+                 0 < n /\ forwarded p hk = true /\ path1 g p cur /\ borrow_ok g c (Some cur);
   inv_fmark : forall t p rh c, pc_of g t (FMark p rh c) -> borrow_ok g c rh
 }.
 
@@ -159,12 +162,13 @@ Definition ids_ok (g : config) : Prop :=
   match t_pc th with
   | CLock _ c | FLock _ c => c < length (clients g)
   | CWalk _ _ cur | WWalk _ _ cur | FWalk _ _ _ cur => cur < length (hooks g)
-  | InCall h | CallFin h | WaitDone h => h < length (hooks g)
+  | InCall h | CallFin h _ | WaitDone h => h < length (hooks g)
   | FMark p _ _ => p < length (hooks g)
   | Idle => True
   end%nat.
 
-(* the part of no_stuck that is proved (CapProofs.no_stuck_partial): as [no_stuck_stmt], for
+(* An earlier, weaker form (CapProofs.no_stuck_partial); the full [no_stuck_stmt] is proved in
+   CapLive.v.  As [no_stuck_stmt], for
    configurations that are well-formed in the sense of [ids_ok] and in which no Fulfill is
    inside its transfer walk (the only place where a hook mutex is held across steps).
    Missing for the full statement: (1) [ids_ok] as an invariant of [reachable], (2) the
